@@ -10,8 +10,8 @@
            one step per stage kind, renew, the labels join as the base case.
    Part E: the planner chain of a query of the fragment, ORDER BY / LIMIT / final select, the theorem. *)
 From Coq Require Import List ZArith NArith QArith String Ascii Bool Lia Permutation.
-From Qryn Require Import lib.Strs model.Sql model.SqlRender model.Logql model.LogqlPlan model.SqlEval model.LogqlSem
-  proofs.SqlEvalProofs proofs.LogqlSemProofs.
+From Qryn Require Import lib.Strs model.Sql model.SqlRender model.Logql model.LogqlRegexp model.LogqlPlan model.SqlEval model.LogqlSem
+  proofs.SqlEvalProofs proofs.LogqlSemProofs proofs.LogqlRegexpProofs.
 Import ListNotations.
 Open Scope string_scope.
 
@@ -73,6 +73,7 @@ Ltac alias_solve :=
   intros k Hk; cbn [map fst List.In app] in Hk; unfold alias5; cbn [List.In]; tauto.
 
 Section BRIDGE2.
+  Context {RG : ReGroups}.
   Variable re_match : string -> string -> bool.
   Variable parse_float : string -> option Q.
   Variable json_get : string -> list string -> string.
@@ -326,6 +327,60 @@ Section BRIDGE2.
       + rewrite map_length. symmetry. now apply all_paths_length.
   Qed.
 
+  (* | regexp "re" : the labels body is wrapped in mapUpdate(., <regexMap>), the fingerprint becomes the hash *)
+  Lemma ev_sep_regex ls re g :
+    EV (Sep "" [Raw regex_map_t1; Sep "," ls; Raw regex_map_t2; StrV re; Raw regex_map_t3]) g =
+    match str_lits ls, g with
+    | Some names, r :: _ =>
+      match lookup "string" r with
+      | Some (VStr line) =>
+        match re_groups re line with
+        | Some vs => if Nat.eqb (List.length vs) (List.length names) then Some (VMap (re_pairs names vs)) else None
+        | None => None end
+      | _ => None end
+    | _, _ => None end.
+  Proof. reflexivity. Qed.
+  Lemma regex_map_0 names re g :
+    EV (regex_map names re) g = EV (Sep "" [Raw regex_map_t1; Sep "," (map StrV names); Raw regex_map_t2; StrV re; Raw regex_map_t3]) g.
+  Proof. reflexivity. Qed.
+  Lemma ev_regex_map names re r g line vs : lookup "string" r = Some (VStr line) ->
+    re_groups re line = Some vs -> List.length vs = List.length names ->
+    EV (regex_map names re) (r :: g) = Some (VMap (re_pairs names vs)).
+  Proof.
+    intros Hs Hg Hl. rewrite regex_map_0, ev_sep_regex, str_lits_strv, Hs, Hg, Hl, Nat.eqb_refl. reflexivity.
+  Qed.
+  Definition regexp_vals (ps : list parser_param) (line : string) : list string :=
+    match re_groups (re_sent ps) line with Some vs => vs | None => [] end.
+  Definition regexp_state (ps : list parser_param) (t : lstate) : lstate :=
+    let ls := map_update (p_labels (snd t)) (re_pairs (re_names ps) (regexp_vals ps (x_line (fst t)))) in
+    (fst t, {| p_labels := ls; p_fp := hash_labels ls |}).
+  Definition regexp_oracle (ps : list parser_param) : Prop :=
+    forall line, exists vs, re_groups (re_sent ps) line = Some vs /\ List.length vs = List.length (re_names ps).
+  Lemma regexp_stage_state ps t : regexp_oracle ps ->
+    regexp_stage hash_labels ps (x_line (fst t)) (snd t) = Some (snd (regexp_state ps t)).
+  Proof.
+    intros Ho. destruct (Ho (x_line (fst t))) as [vs [Hg Hl]]. unfold regexp_stage, regexp_state, regexp_vals.
+    rewrite Hg, Hl, Nat.eqb_refl. reflexivity.
+  Qed.
+  Lemma colsem_regexp e_ts e_fp e_lab e_str e_val r t ps :
+    colsem e_ts e_fp e_lab e_str e_val r t -> lookup "string" r = Some (VStr (x_line (fst t))) ->
+    regexp_oracle ps ->
+    colsem e_ts fp_of_labels (Fn "mapUpdate" [e_lab; regex_map (re_names ps) (re_sent ps)]) e_str e_val r (regexp_state ps t).
+  Proof.
+    intros [Hts Hfp Hlab Hstr Hval] Hs Ho. constructor; cbn [regexp_state fst snd p_labels p_fp]; try assumption.
+    - intros b Hb Hl. rewrite ev_fp_of_labels, (lookup_app_some _ _ _ _ Hl). reflexivity.
+    - intros b Hb Hl. rewrite ev_map_update, (Hlab b Hb Hl).
+      destruct (Ho (x_line (fst t))) as [vs [Hg Hlen]].
+      rewrite (ev_regex_map _ _ _ _ (x_line (fst t)) vs); [|now apply lookup_string_env|exact Hg|exact Hlen].
+      unfold regexp_vals. rewrite Hg. reflexivity.
+  Qed.
+  (* the planner's reading of the expression is the left-to-right reading of its text *)
+  Lemma re_plan_sent_names ps sent names : re_plan (re_source ps) = Some (sent, names) -> sent = re_sent ps /\ names = re_names ps.
+  Proof.
+    intros H. destruct (re_plan_by_opening_parenthesis _ _ _ H) as [ts [Hl [-> ->]]].
+    unfold re_sent, re_names, re_toks. rewrite Hl. split; reflexivity.
+  Qed.
+
   (* | drop ... : the labels body is wrapped in mapFilter(<lambda>, .) *)
   Definition drop_state (ps : list (string * option string)) (t : lstate) : lstate := (fst t, drop_stage hash_labels ps (snd t)).
   Lemma colsem_drop e_ts e_fp e_lab e_str e_val r t ps :
@@ -465,7 +520,9 @@ Section BRIDGE2.
     destruct s as [op v rl|f|fn ps|tm| |lb|ps]; cbn [run_stages]; try reflexivity.
     - destruct (line_ok re_match line op v); [apply IH|reflexivity].
     - destruct (lf_ok re_match parse_float (p_labels st) f); [apply IH|reflexivity].
-    - destruct fn; try reflexivity. destruct (json_stage json_get hash_labels ps line st); [apply IH|reflexivity].
+    - destruct fn; try reflexivity.
+      + destruct (json_stage json_get hash_labels ps line st); [apply IH|reflexivity].
+      + destruct (regexp_stage hash_labels ps line st); [apply IH|reflexivity].
     - apply IH.
   Qed.
   Definition step_of (s : stage) (t : lstate) : list lstate :=
@@ -488,6 +545,12 @@ Section BRIDGE2.
   Proof.
     intros Hp. rewrite live_snoc, <- flat_map_single. apply flat_map_ext. intros t.
     unfold step_of, json_state. cbn [run_stages]. unfold json_stage. rewrite Hp. reflexivity.
+  Qed.
+  Lemma live_regexp a ps : regexp_oracle ps ->
+    live (a ++ [PParser PRegexp ps]) = map (regexp_state ps) (live a).
+  Proof.
+    intros Ho. rewrite live_snoc, <- flat_map_single. apply flat_map_ext. intros t.
+    unfold step_of. cbn [run_stages]. rewrite (regexp_stage_state ps t Ho). reflexivity.
   Qed.
   Lemma live_drop a ps : live (a ++ [PDrop ps]) = map (drop_state ps) (live a).
   Proof. rewrite live_snoc, <- flat_map_single. apply flat_map_ext. intros t. reflexivity. Qed.
@@ -576,6 +639,35 @@ Section BRIDGE2.
     - reflexivity.
     - intros [H|H]; discriminate.
     - intros Hs t Ht. cbn [json_state fst]. now apply Hss.
+  Qed.
+
+  Definition regexp_patch (ps : list parser_param) (req : select) : select :=
+    let req1 := set_cols (patch_col (s_cols req) "labels"
+                  (fun object => Fn "mapUpdate" [object; regex_map (re_names ps) (re_sent ps)])) req in
+    set_cols (patch_col (s_cols req1) "fingerprint" (fun _ => fp_of_labels)) req1.
+
+  Lemma sinv_regexp sel done m swap ps : sinv sel done m swap -> (m = MFresh \/ m = MParsed) ->
+    regexp_oracle ps -> sinv (regexp_patch ps sel) (done ++ [PParser PRegexp ps]) MParsed swap.
+  Proof.
+    intros [e_ts [e_fp [e_lab [e_str [e_val [w [T [src [out [keep [Hf [Hsrc [Hcs [Hstr [Hw [Hperm [Hm [_ Hss]]]]]]]]]]]]]]]]]] Hmode Ho.
+    assert (Ew : w = None) by (apply Hm; destruct Hmode as [->| ->]; discriminate). subst w.
+    exists e_ts, fp_of_labels, (Fn "mapUpdate" [e_lab; regex_map (re_names ps) (re_sent ps)]), e_str, e_val, None,
+           T, src, (fun t => regexp_state ps (out t)), keep.
+    split; [|split; [|split; [|split; [|split; [|split; [|split; [|split]]]]]]].
+    - unfold regexp_patch. cbn [s_cols set_cols]. rewrite (f_cols _ _ _ _ _ Hf).
+      replace (patch_col (patch_col (cols5 swap e_ts e_fp e_lab e_str e_val) "labels"
+                 (fun object => Fn "mapUpdate" [object; regex_map (re_names ps) (re_sent ps)])) "fingerprint" (fun _ => fp_of_labels))
+        with (cols5 swap e_ts fp_of_labels (Fn "mapUpdate" [e_lab; regex_map (re_names ps) (re_sent ps)]) e_str e_val)
+        by (destruct swap; reflexivity).
+      eapply flat5_set_cols. eapply flat5_set_cols. exact Hf.
+    - exact Hsrc.
+    - intros t Ht. apply (colsem_regexp e_ts e_fp e_lab e_str e_val); [now apply Hcs|now apply Hstr|exact Ho].
+    - intros t Ht. cbn [regexp_state fst]. now apply Hstr.
+    - exact Hw.
+    - rewrite (live_regexp done ps Ho), <- (map_map out (regexp_state ps)). now apply Permutation_map.
+    - reflexivity.
+    - intros [H|H]; discriminate.
+    - intros Hs t Ht. cbn [regexp_state fst]. now apply Hss.
   Qed.
 
   Definition drop_patch (ps : list (string * option string)) (req : select) : select :=
